@@ -265,8 +265,13 @@ class MWFamily : public IAlgoFamily {
             std::vector<std::tuple<VertexIndex, VertexIndex, double>> es;
             for (auto e : g0.edges())
                 es.emplace_back(e.first, e.second, g0.getEdgeWeight(e.first, e.second));
-            for (auto &t : es)
-                g0.setEdgeWeight(std::get<0>(t), std::get<1>(t), std::get<2>(t) * unitW);
+            // (in the 2^40 regime every zero weight is written as NEGATIVE zero: finite, not negative)
+            for (auto &t : es) {
+                double w = std::get<2>(t) * unitW;
+                if (w == 0 && unitW > 1)
+                    w = -0.0;
+                g0.setEdgeWeight(std::get<0>(t), std::get<1>(t), w);
+            }
         }
         const size_t n = g0.getSize();
         size_t E = 0;
